@@ -12,7 +12,7 @@ bad = []
 def sample():
     m = ml.Molecule(name="src", charge=-1, mult=2)
     for i, el in enumerate(["C", "N", "O"]):
-        a = ml.Atom(el, label=f"{el}{i}", formal_charge=i - 1, attrib={"k": i})
+        a = ml.Atom(el, label=f"{el}{i}", formal_charge=i - 1, attrib=({"k": i} if i < 2 else {}))       # the last atom has no attributes
         m.add_atom(a, [0.5 * i, 1.0 - i, 2.0], 0.1 * (i + 1))
     b = m.connect(0, 1, btype=ml.BondType.Double)
     b.attrib["w"] = 1
@@ -122,6 +122,19 @@ for nm, s_, v_ in (("first", sa, va), ("second", sb, vb)):
         bad.append(f"concatenate: parent/idx on the {nm} source raised {type(ex).__name__} afterwards")
     if view(s_) != v_:
         bad.append(f"concatenate changed the {nm} source")
+for cls_ in (ml.Molecule,):
+    ma, mb = sample(), sample()
+    vma, vmb = view(ma), view(mb)
+    try:
+        mc = cls_.concatenate(ma, mb)
+        if any(x.parent is not ma for x in ma.atoms) or [x.idx for x in ma.atoms] != list(range(ma.n_atoms)) or any(x.parent is not mb for x in mb.atoms):
+            bad.append(f"{cls_.__name__}.concatenate: source atoms no longer belong to their molecule")
+        mc.atoms[0].label = "edited-in-product"
+        mc.atoms[0].attrib["mut"] = 1
+        if view(ma) != vma or view(mb) != vmb:
+            bad.append(f"{cls_.__name__}.concatenate: editing the product changed a source")
+    except BaseException as ex:
+        bad.append(f"{cls_.__name__}.concatenate / source check raised {type(ex).__name__}: {ex}")
 j1, j2 = ml.Molecule(sample()), ml.Molecule(sample())
 j1.atoms[2].atype = ml.AtomType.AttachmentPoint
 j2.atoms[0].atype = ml.AtomType.AttachmentPoint
